@@ -63,7 +63,7 @@ func (f *Rem) Call(s *slip.Scope, args slip.List, depth int) (result slip.Object
 		div := (*big.Int)(d.(*slip.Bignum))
 		var z big.Int
 		_ = z.Rem((*big.Int)(num), div)
-		result = (*slip.Bignum)(&z)
+		result = slip.IntegerFromBig(&z)
 	case *slip.Ratio:
 		// Exact, the second value of truncate.
 		result = truncate(s, f, args, depth)[1]
